@@ -356,6 +356,108 @@ theorem C16_module_timeline_counterexample :
     linkedTimeline false [(some "year", some 1), (some "day", some 2)] 1 = some (some "day", some 2) := by
   constructor <;> rfl
 
+/-! ### Round 3: declarations in every spelling, mixing pools -/
+
+/-- `TimePar.__new__` (regenerated signature + wrapping call): every time keyword of the caller reaches the time parameter
+    built for a wrapped distribution's first parameter -/
+theorem C16_wrap_forwards_time_keywords :
+    ∀ k ∈ ["unit", "parent_unit", "parent_dt", "self_dt"], Gen.wrapLost.contains k = false := by decide
+
+/-- hence the DECLARED unit is the object's unit in every spelling (plain, inside a distribution, wrapped around one) -/
+theorem C16_declared_unit_reaches (f : Form) (u : UnitT) : declUnitReaching Gen.wrapLost f u = u := by
+  cases f
+  · rfl
+  · rfl
+  · unfold declUnitReaching; simp only; rw [if_neg (by decide)]
+
+/-- the shortcut functions mean what their names say (regenerated from their bodies) -/
+theorem C16_shortcut_units :
+    shortcutOf Gen.shortcuts "days" = some ("dur", "day") ∧ shortcutOf Gen.shortcuts "years" = some ("dur", "year") ∧
+    shortcutOf Gen.shortcuts "perday" = some ("rate", "day") ∧ shortcutOf Gen.shortcuts "peryear" = some ("rate", "year") := by
+  refine ⟨by decide, by decide, by decide, by decide⟩
+
+/-- the object `declare` creates, for a canonical unit name -/
+theorem declare_known (f : Form) (k : Kind) (v : Val Rat) {u : String} (hnu : canonUnit (some u) = .ok (some u)) :
+    declare Gen.wrapLost f k v (some u) = .ok ⟨k, v, some u, none, none, some 1, none, none, false⟩ := by
+  have hv := validateUnits_of (a := (⟨k, v, some u, none, none, some 1, none, none, false⟩ : TP Rat)) (u := some u) (pu := none) hnu rfl
+  unfold declare
+  rw [C16_declared_unit_reaches]
+  simp only [mk, hv]
+
+/-- **Declared durations (infection / immunity durations, every spelling, scalar or the variates of a distribution)**:
+    a duration declared as `v` units `u` and linked to a module stepping `p` units `pu` is `v·len(u)/(p·len(pu))` steps —
+    steps × step length = the declared duration, for every declared unit, module unit and dt -/
+theorem C16_declared_duration_steps (f : Form) (v : Val Rat) {u pu : String} {lu lpu p : Rat}
+    (hlu : unitLen u = some lu) (hlpu : unitLen pu = some lpu) (hp0 : p ≠ 0)
+    (hnu : canonUnit (some u) = .ok (some u)) (hnpu : canonUnit (some pu) = .ok (some pu)) :
+    (∃ t', declareInit Gen.wrapLost f .dur v (some u) (some pu) (some p) true = .ok t' ∧
+      t'.unit = some u ∧ t'.parentUnit = some pu ∧ t'.parentDt = some p ∧
+      t'.values = some (v.map (· * ((1 / p) * (lu / lpu))))) ∧
+    ∀ x : Rat, (x * ((1 / p) * (lu / lpu))) * (p * lpu) = x * lu := by
+  refine ⟨⟨⟨.dur, v, some u, some pu, some p, some 1, some ((1 / p) * (lu / lpu)), some (v.map (· * ((1 / p) * (lu / lpu)))), true⟩, ?_, rfl, rfl, rfl, rfl⟩, ?_⟩
+  · unfold declareInit
+    rw [declare_known f .dur v hnu]
+    simp only [init, Option.isSome, Bool.and_false, Bool.false_eq_true, if_false]
+    rw [updateCached_dur (u := u) (pu := pu) (s := 1) (p := p) (lu := lu) (lpu := lpu) _ rfl rfl rfl rfl rfl hlu hlpu hp0]
+    simp only
+    rw [validateUnits_of (u := some u) (pu := some pu) hnu hnpu]
+    rfl
+  · intro x
+    have := ne_of_gt (unitLen_pos hlpu)
+    field_simp
+
+/-- **Declared rates (waning, shedding, …, every spelling)**: per-step value = `v · (p·len(pu)) / len(u)` -/
+theorem C16_declared_rate_per_step (f : Form) (v : Val Rat) {u pu : String} {lu lpu p : Rat}
+    (hlu : unitLen u = some lu) (hlpu : unitLen pu = some lpu) (hp0 : p ≠ 0)
+    (hnu : canonUnit (some u) = .ok (some u)) (hnpu : canonUnit (some pu) = .ok (some pu)) :
+    (∃ t', declareInit Gen.wrapLost f .rate v (some u) (some pu) (some p) true = .ok t' ∧
+      t'.unit = some u ∧ t'.parentUnit = some pu ∧ t'.parentDt = some p ∧
+      t'.values = some (v.map (· / ((1 / p) * (lu / lpu))))) ∧
+    ∀ x : Rat, x / ((1 / p) * (lu / lpu)) = x * ((p * lpu) / lu) := by
+  refine ⟨⟨⟨.rate, v, some u, some pu, some p, some 1, some ((1 / p) * (lu / lpu)), some (v.map (· / ((1 / p) * (lu / lpu)))), true⟩, ?_, rfl, rfl, rfl, rfl⟩, ?_⟩
+  · unfold declareInit
+    rw [declare_known f .rate v hnu]
+    simp only [init, Option.isSome, Bool.and_false, Bool.false_eq_true, if_false]
+    rw [updateCached_rate (u := u) (pu := pu) (s := 1) (p := p) (lu := lu) (lpu := lpu) _ rfl rfl rfl rfl rfl hlu hlpu hp0 one_ne_zero]
+    simp only
+    rw [validateUnits_of (u := some u) (pu := some pu) hnu hnpu]
+    rfl
+  · intro x
+    have := ne_of_gt (unitLen_pos hlpu); have := ne_of_gt (unitLen_pos hlu)
+    field_simp
+
+/-- what would happen if the wrapper dropped the unit (the model is sensitive to the regenerated fact): a 10-day duration in a
+    weekly module would be 10 steps = 10 weeks instead of 10/7 steps -/
+theorem C16_wrap_lost_unit_is_wrong :
+    (declareInit ["unit"] .wrapped .dur (.scalar 10) (some "day") (some "week") (some 1) true).map (·.values) = .ok (some (.scalar 10)) ∧
+    (declareInit [] .wrapped .dur (.scalar 10) (some "day") (some "week") (some 1) true).map (·.values) = .ok (some (.scalar (10/7))) := by
+  refine ⟨by decide +kernel, by decide +kernel⟩
+
+/-- the built-in declarations (regenerated table): known spellings and kinds only, and every `dur_*` parameter is a duration -/
+theorem C16_builtin_declarations_wellformed :
+    ∀ d ∈ Gen.builtinDecls, d.2.2.1 ∈ ["plain", "inside", "wrapped"] ∧ d.2.2.2.1 ∈ ["dur", "rate", "time_prob", "rate_prob", "beta"] ∧
+      (d.2.2.2.2.2 = true → d.2.2.2.1 = "dur") := by decide
+
+/-- **Mixing pools**: the beta multiplied into the acquisition probability is the PER-STEP value of the time parameter
+    (`Gen.poolBetaField`, regenerated from `MixingPool.step`), so `p = beta_per_step · trans · acq` -/
+theorem C16_pool_prob_per_step (t : TP Rat) (vals : Val Rat) (h : t.values = some vals) (trans acq : Rat) :
+    poolProb Gen.poolBetaField t trans acq = .ok (vals.map (fun x => x * trans * acq)) := by
+  unfold poolProb poolBeta
+  rw [if_pos (by decide), h]
+
+/-- … and with everybody infectious and one effective contact, compounding it over the `f` steps of beta's unit gives beta
+    back, whatever the step (exact; `C06_timeprob_compound`) -/
+theorem C16_pool_compound {β f : ℝ} (hβ : β < 1) (hf : f ≠ 0) : 1 - (1 - realOps.tpFormula β f * 1 * 1) ^ f = β := by
+  rw [mul_one, mul_one]; exact tp_compound hβ hf
+
+/-- a beta of 1/2 per year in a pool stepping a quarter of a year (observed per-step value 3/20, rounded for the example) -/
+def poolWitness : TP Rat := ⟨.beta, .scalar (1/2), some "year", some "year", some (1/4), some 1, some 4, some (.scalar (3/20)), true⟩
+
+/-- the field matters: the raw per-year number would be applied on every step -/
+theorem C16_pool_raw_value_is_wrong :
+    poolProb "values" poolWitness (1/2) 1 = .ok (.scalar (3/40)) ∧ poolProb "v" poolWitness (1/2) 1 = .ok (.scalar (1/4)) := by
+  refine ⟨by decide +kernel, by decide +kernel⟩
+
 /-! ### Non-vacuity -/
 
 /-- `deathsWitness` is a `RateReady` object (the default `ss.peryear(20)` in a yearly module with dt = 1/5) -/
@@ -383,5 +485,18 @@ example : ∃ lu ly, unitLen "day" = some lu ∧ unitLen "year" = some ly := by
     cases hy : unitLen "year" with
     | none => exact absurd hy (by decide +kernel)
     | some ly => exact ⟨lu, ly, rfl, rfl⟩
+
+/-- the hypotheses of the declaration theorems are met by the real unit table: days declared, weeks stepped -/
+example : ∃ lu lpu, unitLen "day" = some lu ∧ unitLen "week" = some lpu ∧
+    canonUnit (some "day") = .ok (some "day") ∧ canonUnit (some "week") = .ok (some "week") := by
+  cases hd : unitLen "day" with
+  | none => exact absurd hd (by decide +kernel)
+  | some lu =>
+    cases hw : unitLen "week" with
+    | none => exact absurd hw (by decide +kernel)
+    | some lpu => exact ⟨lu, lpu, rfl, rfl, by decide +kernel, by decide +kernel⟩
+
+/-- `poolWitness` has per-step values, so `C16_pool_prob_per_step` applies to it -/
+example : poolWitness.values = some (.scalar (3/20)) := rfl
 
 end StarsimModel.C16
